@@ -39,7 +39,7 @@ func (check) Cases(tier string) int {
 }
 
 func (check) Rule() string {
-	return "each case builds one shared config rich in dynamic values (references, splices, resolver-provided text that parses into objects and lists, nil values, settings captured as *Config) and lets 2-32 goroutines perform a shuffled mix of reads on it at the same time (Unpack into interface{}/typed struct/*Config capture, String/Int/Bool getters, Child, Has, CountField, GetFields, Path, FlattenedKeys, using it and a captured sub-config as merge source), 10 rounds per config; the worker is built with the Go race detector (reports counted from the race log per case); at the yield hook inside dynamic value evaluation a PRNG-chosen goroutine yields or sleeps 0-50us; every result is compared with the sequential baseline taken before the goroutines start; the non-evaluating fingerprint of the shared config is compared before/after every round. Distinct interleavings are counted from the merged stream of goroutine ids at the hook. Non-trivial = a round in which at least two goroutines overlapped at the hook (interleaving differs from serial order); distinct = distinct (config, round interleaving)."
+	return "each case builds one shared config rich in dynamic values (references, splices, resolver-provided text that parses into objects and lists, nil values, settings captured as *Config) and lets 2-32 goroutines perform a shuffled mix of reads on it at the same time (Unpack into interface{}/typed struct/*Config capture, String/Int/Bool getters, Child, Has, CountField, GetFields, Path, FlattenedKeys, using it and a captured sub-config as merge source), 10 rounds per config, preceded by 3 cold rounds in which the goroutines are the first readers of a freshly built identical config (lazily initialised state is initialised under concurrency); the worker is built with the Go race detector (reports counted from the race log per case); at the yield hook inside dynamic value evaluation a PRNG-chosen goroutine yields or sleeps 0-50us; every result is compared with the sequential baseline taken before the goroutines start; the non-evaluating fingerprint of the shared config is compared before/after every round. Distinct interleavings are counted from the merged stream of goroutine ids at the hook. Non-trivial = a round in which at least two goroutines overlapped at the hook (interleaving differs from serial order); distinct = distinct (config, round interleaving)."
 }
 
 func (check) Assumptions() []string {
@@ -444,6 +444,63 @@ func (check) Run(seed int64, tier string, idx int, verbose bool) harness.Result 
 	res.SetAdd("goroutines", strconv.Itoa(goroutines))
 	rounds := 10
 	var hookSeq int64
+	// cold rounds: the goroutines are the FIRST readers of a freshly built,
+	// identical config (nothing has been evaluated on it, so whatever a read
+	// initialises lazily is initialised under concurrency)
+	byName := map[string]string{}
+	for i, op := range list {
+		byName[op.name] = base[i]
+	}
+	for cold := 0; cold < 3; cold++ {
+		cs, co, _ := buildShared(rand.New(rand.NewSource(bseed)))
+		cl := ops(cs, nil, co)
+		cfp := fingerprint(cs)
+		var wg sync.WaitGroup
+		var mismatch atomic.Value
+		var evals int64
+		start := make(chan struct{})
+		for g := 0; g < goroutines; g++ {
+			wg.Add(1)
+			order := r.Perm(len(cl))
+			go func(order []int) {
+				defer wg.Done()
+				<-start
+				for _, i := range order {
+					want, ok := byName[cl[i].name]
+					if !ok {
+						continue
+					}
+					var got string
+					p, pv, where := harness.Safe(func() { got = cl[i].run() })
+					atomic.AddInt64(&evals, 1)
+					if p {
+						mismatch.Store(fmt.Sprintf("panic in %s: %s at %s", cl[i].name, pv, where))
+						return
+					}
+					if got != want {
+						mismatch.Store(fmt.Sprintf("%s returned %q as one of the first concurrent reads of a fresh config, %q alone", cl[i].name, got, want))
+						return
+					}
+				}
+			}(order)
+		}
+		close(start)
+		wg.Wait()
+		res.Eval(int(evals))
+		res.Ev("cold_rounds_first_readers_concurrent", 1)
+		if m := mismatch.Load(); m != nil {
+			sig := "concurrent-first-read-differs-from-sequential"
+			if strings.HasPrefix(m.(string), "panic") {
+				sig = "panic-under-concurrency"
+			}
+			res.Violate(sig, "%s; %d goroutines, cold round %d; config %s", m, goroutines, cold, desc)
+			break
+		}
+		if after := fingerprint(cs); after != cfp {
+			res.Violate("shared-config-modified-by-reads", "fingerprint of a fresh config changed during its first concurrent reads (%d goroutines): %q vs %q; config %s", goroutines, firstDiff(cfp, after), firstDiff(after, cfp), desc)
+			break
+		}
+	}
 	for round := 0; round < rounds; round++ {
 		fpBefore := fingerprint(shared) + fingerprint(shared2)
 		var mu sync.Mutex
